@@ -836,14 +836,16 @@ def replay_c06(path, binary):
     cut = next((e for e in unit if e.get("op") == "Cut" and "overlap_seed" in e), None)
     d = vlib.scratch("verif-rp-")
     out = os.path.join(d, "replay.ndjson")
-    if cut is not None:
-        lines = overlap_lines(binary, cut["overlap_tier"], cut["overlap_seed"])
-    else:
+    if cut is None:
         return plain_replay("C06", path, binary)
-    v = vlib.validate(lines, ["C06"], shards=4)
-    if v.infra:
-        raise Infra("replay trace unusable: %s" % v.infra[:3])
-    mine = [b for b in v.bad if b[1] == "C06"]
+    for attempt in range(4):        # (what overlapping calls do depends on the schedule: up to four runs)
+        lines = overlap_lines(binary, cut["overlap_tier"], cut["overlap_seed"] + attempt)
+        v = vlib.validate(lines, ["C06"], shards=4)
+        if v.infra:
+            raise Infra("replay trace unusable: %s" % v.infra[:3])
+        mine = [b for b in v.bad if b[1] == "C06"]
+        if mine:
+            break
     return (len(mine) == 0, "%s: %d events, %d failing" % ("overlap scenarios run again" if cut is not None else "re-executed", len(lines), len(mine)))
 
 
@@ -976,11 +978,14 @@ def replay_c07(path, binary):
     rp = json.load(open(path))
     cut = next((e for e in rp["unit"] if e.get("op") == "Cut" and "overlap_seed" in e), None)
     if cut is not None:
-        lines = overlap_lines(binary, cut["overlap_tier"], cut["overlap_seed"])
-        v = vlib.validate(lines, ["C07"], shards=4)
-        if v.infra:
-            raise Infra("replay trace unusable: %s" % v.infra[:3])
-        mine = [b for b in v.bad if b[1] == "C07"]
+        for attempt in range(4):        # (what overlapping calls do depends on the schedule: up to four runs)
+            lines = overlap_lines(binary, cut["overlap_tier"], cut["overlap_seed"] + attempt)
+            v = vlib.validate(lines, ["C07"], shards=4)
+            if v.infra:
+                raise Infra("replay trace unusable: %s" % v.infra[:3])
+            mine = [b for b in v.bad if b[1] == "C07"]
+            if mine:
+                break
         return (len(mine) == 0, "overlap scenarios run again: %d events, %d failing" % (len(lines), len(mine)))
     # the process is re-run with the word count of the failing call (the unit starts with a 24-word call)
     k = rp.get("failing_event", 0)
